@@ -34,7 +34,7 @@ PLAIN_CXX:= g++ -std=gnu++17 -O1 -g
 COMMON_H := $(wildcard src/common/*.hpp) $(wildcard src/common/*.inc)
 
 HARNESSES := $(patsubst src/%.cpp,%,$(wildcard src/c[0-9][0-9]*.cpp))
-FUZZ_IDS  := c01 c04 c06 c07 c08 c10 c16 c17
+FUZZ_IDS  := c01 c02 c03 c04 c05 c06 c07 c08 c09 c10 c11 c12 c13 c14 c15 c16 c17 c18 c19
 FUZZERS   := $(addprefix fz_,$(FUZZ_IDS))
 
 .PHONY: all clean libs harnesses fuzzers
